@@ -97,6 +97,22 @@ pub struct RunConfig {
     /// Per-run harness context reachable from any simulated thread (also
     /// from `Drop` impls, which have no captured environment).
     pub user: Option<Arc<dyn std::any::Any + Send + Sync>>,
+    /// In-run invariant monitor (see [`Monitor`]).
+    pub monitor: Option<Arc<dyn Monitor>>,
+}
+
+/// An invariant evaluated while the run proceeds, under the sim lock.
+///
+/// `pre_touch` is asked *before* a simulated thread operates on shim-visible
+/// memory (an atomic, a thread handle about to be cloned); returning a
+/// message stops the run with [`Failure::Invariant`] before the real
+/// operation is executed — so that a use-after-free in the code under test
+/// is reported instead of executed.
+pub trait Monitor: Send + Sync {
+    fn on_event(&self, _e: &Event) {}
+    fn pre_touch(&self, _tid: usize, _addr: usize) -> Option<String> {
+        None
+    }
 }
 
 impl Default for RunConfig {
@@ -112,6 +128,7 @@ impl Default for RunConfig {
             watchdog: Duration::from_secs(20),
             name: "run",
             user: None,
+            monitor: None,
         }
     }
 }
@@ -305,6 +322,7 @@ pub struct State {
     pub(crate) overheads: [u128; 4],
     pub(crate) user: Option<Arc<dyn std::any::Any + Send + Sync>>,
     pub(crate) precision_reads: u64,
+    pub(crate) monitor: Option<Arc<dyn Monitor>>,
 }
 
 pub(crate) enum Step<R> {
@@ -373,7 +391,11 @@ impl State {
     pub(crate) fn log(&mut self, tid: usize, kind: Ev) {
         let seq = self.events.len() as u32;
         let vc = self.threads[tid].vc;
-        self.events.push(Event { seq, tid: tid as u8, vt: self.clock.now, kind, vc });
+        let e = Event { seq, tid: tid as u8, vt: self.clock.now, kind, vc };
+        if let Some(m) = &self.monitor {
+            m.on_event(&e);
+        }
+        self.events.push(e);
     }
 
     #[inline]
@@ -881,6 +903,7 @@ pub fn run(cfg: RunConfig, main: Box<dyn FnOnce() + Send>) -> RunResult {
         overheads: cfg.overheads,
         user: cfg.user.clone(),
         precision_reads: 0,
+        monitor: cfg.monitor.clone(),
     };
     const F: AtomicBool = AtomicBool::new(false);
     let sim = Arc::new(Sim {
@@ -1050,4 +1073,27 @@ impl Sim {
 pub fn user() -> Option<Arc<dyn std::any::Any + Send + Sync>> {
     let (s, _) = ctx()?;
     s.lock().user.clone()
+}
+
+impl Sim {
+    /// Asks the monitor whether `tid` may operate on memory at `addr`; stops
+    /// the run if not. Called before the real operation.
+    pub(crate) fn pre_touch(&self, tid: usize, addr: usize) {
+        let st = self.lock();
+        if st.failure.is_some() {
+            drop(st);
+            park_forever();
+        }
+        if let Some(m) = &st.monitor {
+            if let Some(message) = m.pre_touch(tid, addr) {
+                self.fail(st, Failure::Invariant { message });
+            }
+        }
+    }
+
+    pub(crate) fn has_monitor(&self) -> bool {
+        // Read without the lock would race with nothing (set once), but the
+        // lock is cheap and uncontended.
+        self.lock().monitor.is_some()
+    }
 }
